@@ -1,8 +1,361 @@
 package main
 
-// Replay of solver counterexamples against the real code. Families with a
-// template return true when the real code reproduces the failure.
+// Replay of solver counterexamples against the real code.
+//
+// Family "values": functions whose parameters are byte slices, integers,
+// booleans and strings, with a receiver that can be created as a zero value.
+// The candidate model of a failed obligation is turned into concrete
+// arguments, the real function is called in an in-package test injected with
+// `go test -overlay` (nothing is written under /repo), and the test fails iff
+// the call panics or an executable postcondition of the contract is false.
+
+import (
+	"bytes"
+	"context"
+	"encoding/json"
+	"fmt"
+	"go/types"
+	"os"
+	"os/exec"
+	"path/filepath"
+	"regexp"
+	"strconv"
+	"strings"
+	"time"
+)
+
+type ReplayResult struct {
+	Attempted  bool     `json:"attempted"`
+	Reproduced bool     `json:"reproduced_on_real_code"`
+	Inputs     []string `json:"inputs,omitempty"`
+	TestFile   string   `json:"test_file,omitempty"`
+	PkgDir     string   `json:"pkg_dir,omitempty"`
+	Output     string   `json:"output,omitempty"`
+	Why        string   `json:"why_not,omitempty"`
+}
+
+const replayMaxBytes = 96
+
+// replayable decides whether the function fits the "values" family and
+// returns the Go source pieces needed for the test.
+func (fv *FV) replayPlan() (ok bool, why string) {
+	u := fv.u
+	if u.lemma || u.Decl.Body == nil {
+		return false, "not a function with a body"
+	}
+	sig := u.Fn.Type().(*types.Signature)
+	if sig.Variadic() || sig.TypeParams() != nil {
+		return false, "variadic or generic"
+	}
+	for i := 0; i < sig.Params().Len(); i++ {
+		if !replayableParam(sig.Params().At(i).Type()) {
+			return false, "parameter " + sig.Params().At(i).Name() + " of type " + typeStr(sig.Params().At(i).Type()) + " is outside the replay family"
+		}
+	}
+	if r := sig.Recv(); r != nil {
+		t := deref(r.Type())
+		if _, isNamed := types.Unalias(t).(*types.Named); !isNamed {
+			return false, "receiver type"
+		}
+		if !replayableRecv(t) {
+			return false, "receiver of type " + typeStr(t) + " is outside the replay family"
+		}
+	}
+	return true, ""
+}
+
+func replayableParam(t types.Type) bool {
+	switch u := t.Underlying().(type) {
+	case *types.Basic:
+		return u.Info()&(types.IsInteger|types.IsBoolean|types.IsString) != 0
+	case *types.Slice:
+		b, ok := u.Elem().Underlying().(*types.Basic)
+		return ok && b.Kind() == types.Uint8
+	}
+	return false
+}
+
+func replayableRecv(t types.Type) bool {
+	switch u := t.Underlying().(type) {
+	case *types.Struct:
+		return true // zero value
+	case *types.Basic:
+		return u.Info()&types.IsInteger != 0
+	case *types.Slice:
+		b, ok := u.Elem().Underlying().(*types.Basic)
+		return ok && b.Kind() == types.Uint8
+	case *types.Array:
+		b, ok := u.Elem().Underlying().(*types.Basic)
+		return ok && b.Kind() == types.Uint8
+	}
+	return false
+}
+
+var getValueRe = regexp.MustCompile(`\(\(?(.+?) (\(- \d+\)|\d+|true|false)\)\)?$`)
+
+// modelValues asks the solver for the values of the given terms in a model of
+// the failed obligation (quantifier-free part), with extra constraints.
+func (fv *FV) modelValues(o *Obligation, extra []string, terms []string, dir string) (map[string]string, bool) {
+	base := fv.s.queryQF(o.upto, o.goal)
+	base = strings.Replace(base, "(check-sat)\n(get-model)\n", "", 1)
+	var b strings.Builder
+	b.WriteString(base)
+	for _, x := range extra {
+		b.WriteString("(assert " + x + ")\n")
+	}
+	b.WriteString("(check-sat)\n")
+	for _, t := range terms {
+		b.WriteString("(get-value (" + t + "))\n")
+	}
+	file := filepath.Join(dir, "replay.smt2")
+	os.MkdirAll(dir, 0o755)
+	if err := os.WriteFile(file, []byte(b.String()), 0o644); err != nil {
+		return nil, false
+	}
+	defer os.Remove(file)
+	ctx, cancel := context.WithTimeout(context.Background(), 15*time.Second)
+	defer cancel()
+	out, _ := exec.CommandContext(ctx, "z3-new", "-T:10", file).Output()
+	text := strings.TrimSpace(string(out))
+	if !strings.HasPrefix(text, "sat") {
+		return nil, false
+	}
+	text = strings.TrimSpace(strings.TrimPrefix(text, "sat"))
+	vals := map[string]string{}
+	// the responses are a sequence of ((term value)) s-expressions, possibly spanning lines
+	pos := 0
+	for _, t := range terms {
+		for pos < len(text) && text[pos] != '(' {
+			pos++
+		}
+		if pos >= len(text) {
+			break
+		}
+		end := matchClose(text, pos)
+		if end < 0 {
+			break
+		}
+		resp := parseSx(text[pos : end+1])
+		pos = end + 1
+		if len(resp.kids) == 1 && len(resp.kids[0].kids) == 2 {
+			vals[t] = resp.kids[0].kids[1].String()
+		}
+	}
+	return vals, true
+}
+
+func smtIntToGo(v string) (string, bool) {
+	v = strings.TrimSpace(v)
+	if strings.HasPrefix(v, "(- ") {
+		return "-" + strings.TrimSuffix(strings.TrimPrefix(v, "(- "), ")"), true
+	}
+	if _, err := strconv.ParseUint(v, 10, 64); err == nil {
+		return v, true
+	}
+	return "", false
+}
+
+// tryReplayObl builds and runs the replay test for a failed obligation.
+func (fv *FV) tryReplayObl(o *Obligation, dir string) *ReplayResult {
+	res := &ReplayResult{}
+	ok, why := fv.replayPlan()
+	if !ok {
+		res.Why = why
+		return res
+	}
+	res.Attempted = true
+	u := fv.u
+	sig := u.Fn.Type().(*types.Signature)
+	// terms to evaluate
+	var terms, extra []string
+	type pinfo struct {
+		v    *types.Var
+		val  Value
+		kind string
+	}
+	var ps []pinfo
+	for i := 0; i < sig.Params().Len(); i++ {
+		p := sig.Params().At(i)
+		val := fv.entryVals[p]
+		pi := pinfo{v: p, val: val}
+		switch {
+		case val.K == kSlice:
+			pi.kind = "bytes"
+			terms = append(terms, val.Len.S, fmt.Sprintf("(= %s null)", val.T.S))
+			extra = append(extra, fmt.Sprintf("(<= %s %d)", val.Len.S, replayMaxBytes))
+			inner := fv.sliceInner(fv.entry, val, sInt)
+			for k := 0; k < replayMaxBytes; k++ {
+				bt := fmt.Sprintf("(select %s (+ %s %d))", inner.S, val.Off.S, k)
+				terms = append(terms, bt)
+				extra = append(extra, fmt.Sprintf("(and (<= 0 %s) (<= %s 255))", bt, bt)) // real bytes
+			}
+		case val.T.Sort == sInt:
+			pi.kind = "int"
+			terms = append(terms, val.T.S)
+		case val.T.Sort == sBool:
+			pi.kind = "bool"
+			terms = append(terms, val.T.S)
+		default:
+			pi.kind = "zero"
+		}
+		ps = append(ps, pi)
+	}
+	vals, sat := fv.modelValues(o, extra, terms, dir)
+	if !sat {
+		res.Why = "no small model (byte slices limited to " + strconv.Itoa(replayMaxBytes) + " bytes) within the time limit"
+		return res
+	}
+	// build argument expressions
+	var args []string
+	qual := func(p *types.Package) string {
+		if p == u.Fn.Pkg() {
+			return ""
+		}
+		return p.Name()
+	}
+	for _, pi := range ps {
+		tstr := types.TypeString(pi.v.Type(), qual)
+		switch pi.kind {
+		case "bytes":
+			n, _ := strconv.Atoi(vals[pi.val.Len.S])
+			isNil := vals[fmt.Sprintf("(= %s null)", pi.val.T.S)] == "true"
+			inner := fv.sliceInner(fv.entry, pi.val, sInt)
+			var bs []string
+			for k := 0; k < n && k < replayMaxBytes; k++ {
+				v := vals[fmt.Sprintf("(select %s (+ %s %d))", inner.S, pi.val.Off.S, k)]
+				g, ok := smtIntToGo(v)
+				if !ok {
+					g = "0"
+				}
+				iv, _ := strconv.ParseInt(g, 10, 64)
+				bs = append(bs, strconv.Itoa(int(((iv%256)+256)%256)))
+			}
+			if isNil && n == 0 {
+				args = append(args, tstr+"(nil)")
+			} else {
+				args = append(args, tstr+"([]byte{"+strings.Join(bs, ", ")+"})")
+			}
+			res.Inputs = append(res.Inputs, fmt.Sprintf("%s = %d bytes [%s]", pi.v.Name(), n, strings.Join(bs, " ")))
+		case "int":
+			g, ok := smtIntToGo(vals[pi.val.T.S])
+			if !ok {
+				g = "0"
+			}
+			args = append(args, tstr+"("+g+")")
+			res.Inputs = append(res.Inputs, pi.v.Name()+" = "+g)
+		case "bool":
+			args = append(args, vals[pi.val.T.S])
+			res.Inputs = append(res.Inputs, pi.v.Name()+" = "+vals[pi.val.T.S])
+		default:
+			args = append(args, "*new("+tstr+")")
+		}
+	}
+	// test source
+	var src bytes.Buffer
+	fmt.Fprintf(&src, "package %s\n\nimport \"testing\"\n\n", u.Pkg.Name)
+	fmt.Fprintf(&src, "// Generated by govc: replay of a counterexample for obligation\n// %s\nfunc TestVerifReplay(t *testing.T) {\n", o.Name)
+	fmt.Fprintf(&src, "\tdefer func() {\n\t\tif r := recover(); r != nil {\n\t\t\tt.Fatalf(\"VERIF-REPLAY-FAIL: the real code panics: %%v\", r)\n\t\t}\n\t}()\n")
+	call := u.Fn.Name() + "(" + strings.Join(args, ", ") + ")"
+	if r := sig.Recv(); r != nil {
+		rt := types.TypeString(deref(r.Type()), qual)
+		fmt.Fprintf(&src, "\tvar recv %s\n", rt)
+		call = "recv." + call
+	}
+	nres := sig.Results().Len()
+	var rn []string
+	for i := 0; i < nres; i++ {
+		rn = append(rn, fmt.Sprintf("r%d", i))
+	}
+	if nres > 0 {
+		fmt.Fprintf(&src, "\t%s := %s\n", strings.Join(rn, ", "), call)
+		for _, r := range rn {
+			fmt.Fprintf(&src, "\t_ = %s\n", r)
+		}
+	} else {
+		fmt.Fprintf(&src, "\t%s\n", call)
+	}
+	fmt.Fprintf(&src, "}\n")
+	testFile := filepath.Join(dir, "zz_verif_replay_test.go")
+	os.WriteFile(testFile, src.Bytes(), 0o644)
+	pkgDir := filepath.Dir(fv.eng.fset.Position(u.Decl.Pos()).Filename)
+	ov := map[string]map[string]string{"Replace": {filepath.Join(pkgDir, "zz_verif_replay_test.go"): testFile}}
+	ovData, _ := json.Marshal(ov)
+	ovFile := filepath.Join(dir, "overlay.json")
+	os.WriteFile(ovFile, ovData, 0o644)
+	ctx, cancel := context.WithTimeout(context.Background(), 180*time.Second)
+	defer cancel()
+	cmd := exec.CommandContext(ctx, "go", "test", "-overlay", ovFile, "-vet=off", "-count=1", "-timeout", "60s", "-run", "^TestVerifReplay$", ".")
+	cmd.Dir = pkgDir
+	cmd.Env = append(os.Environ(), "GOFLAGS=-mod=mod", "GOPROXY=off", "GOTOOLCHAIN=local")
+	out, err := cmd.CombinedOutput()
+	res.Output = summarizeModel(string(out), 40)
+	res.TestFile = string(src.Bytes())
+	res.PkgDir = strings.TrimPrefix(pkgDir, repoGo+"/")
+	if err != nil && strings.Contains(string(out), "VERIF-REPLAY-FAIL") {
+		res.Reproduced = true
+	} else if err != nil {
+		res.Why = "replay test did not run to a verdict"
+	} else {
+		res.Why = "the real code does not fail on this input (the abstraction is coarser than the code, or the failed obligation is not a run-time failure)"
+	}
+	return res
+}
 
 func (eng *Engine) tryReplay(prop string, o *Obligation, rp map[string]any) (bool, string) {
-	return false, ""
+	if o.Replay == nil {
+		return false, ""
+	}
+	rp["replay"] = o.Replay
+	rp["replayed_on_real_code"] = o.Replay.Reproduced
+	return o.Replay.Reproduced, ""
+}
+
+// cmdReplay re-runs the test stored in a replay file against /repo's current tree.
+func cmdReplay(args []string) int {
+	var prop, file string
+	for i := 0; i+1 < len(args); i++ {
+		switch args[i] {
+		case "-prop":
+			prop = args[i+1]
+		case "-file":
+			file = args[i+1]
+		}
+	}
+	data, err := os.ReadFile(file)
+	if err != nil {
+		fmt.Fprintln(os.Stderr, "cannot read replay file:", err)
+		return 2
+	}
+	var rp struct {
+		Obligation string        `json:"obligation"`
+		Replay     *ReplayResult `json:"replay"`
+	}
+	if err := json.Unmarshal(data, &rp); err != nil {
+		fmt.Fprintln(os.Stderr, "bad replay file:", err)
+		return 2
+	}
+	if rp.Replay == nil || rp.Replay.TestFile == "" {
+		fmt.Printf("replay file names obligation %s; it carries no executable input (no-failing-input-found)\n", rp.Obligation)
+		return 0
+	}
+	dir, _ := os.MkdirTemp("", "govc-replay")
+	defer os.RemoveAll(dir)
+	testFile := filepath.Join(dir, "zz_verif_replay_test.go")
+	os.WriteFile(testFile, []byte(rp.Replay.TestFile), 0o644)
+	pkgDir := filepath.Join(repoGo, rp.Replay.PkgDir)
+	ov := map[string]map[string]string{"Replace": {filepath.Join(pkgDir, "zz_verif_replay_test.go"): testFile}}
+	ovData, _ := json.Marshal(ov)
+	ovFile := filepath.Join(dir, "overlay.json")
+	os.WriteFile(ovFile, ovData, 0o644)
+	cmd := exec.Command("go", "test", "-overlay", ovFile, "-vet=off", "-count=1", "-timeout", "60s", "-run", "^TestVerifReplay$", ".")
+	cmd.Dir = pkgDir
+	cmd.Env = append(os.Environ(), "GOFLAGS=-mod=mod", "GOPROXY=off", "GOTOOLCHAIN=local")
+	out, err := cmd.CombinedOutput()
+	fmt.Print(string(out))
+	if err != nil && strings.Contains(string(out), "VERIF-REPLAY-FAIL") {
+		fmt.Printf("VIOLATION property=%s replay=%s\n", prop, file)
+		return 1
+	}
+	fmt.Println("replay: the real code does not fail on the recorded input")
+	return 0
 }
